@@ -48,7 +48,15 @@ def run_one(patch, budget, props=None, tier='quick'):
         r = subprocess.run(['git', '-C', repo, 'apply', patch],
                            capture_output=True, text=True)
         if r.returncode != 0:
-            return {'error': 'patch does not apply: ' + r.stderr[-300:]}
+            # written against an earlier tree (a later fix: commit touched
+            # the same lines): merge it
+            r = subprocess.run(['git', '-C', repo, 'apply', '--3way', patch],
+                               capture_output=True, text=True)
+            left = subprocess.run(['git', '-C', repo, 'diff', '--name-only',
+                                   '--diff-filter=U'], capture_output=True,
+                                  text=True).stdout.strip()
+            if r.returncode != 0 or left:
+                return {'error': 'patch does not apply: ' + r.stderr[-300:]}
         for pid in props:
             env = dict(os.environ)
             env['DDSMT_SIM_REPO'] = repo
